@@ -150,6 +150,60 @@ func c16Client(alg string, level int) (*http.Client, error) {
 	return cl, nil
 }
 
+type c16Capture struct {
+	first, again []byte
+	hasGetBody   bool
+	clen         int64
+	err          error
+}
+
+func (cp *c16Capture) RoundTrip(r *http.Request) (*http.Response, error) {
+	cp.clen = r.ContentLength
+	if r.Body != nil {
+		cp.first, cp.err = io.ReadAll(r.Body)
+		r.Body.Close()
+	}
+	if r.GetBody != nil {
+		cp.hasGetBody = true
+		rc, err := r.GetBody()
+		if err != nil {
+			cp.err = err
+		} else {
+			cp.again, cp.err = io.ReadAll(rc)
+			rc.Close()
+		}
+	}
+	return &http.Response{StatusCode: 200, Body: http.NoBody, Header: http.Header{}, Request: r}, nil
+}
+
+// c16Replay drives the real compressing round tripper with a capturing inner transport.
+func c16Replay(c c16Case, in []byte, body io.Reader) (string, string) {
+	cp := &c16Capture{}
+	crt, err := newCompressRoundTripper(cp, configcompression.Type(c.Alg), configcompression.CompressionParams{Level: configcompression.Level(c.Level)})
+	if err != nil {
+		return "", ""
+	}
+	req, err := http.NewRequest(http.MethodPost, "http://localhost/", body)
+	if err != nil {
+		return "", ""
+	}
+	resp, err := crt.RoundTrip(req)
+	if err != nil {
+		return "client-error:replay", err.Error()
+	}
+	resp.Body.Close()
+	if cp.err != nil {
+		return "client-error:replay", cp.err.Error()
+	}
+	if cp.clen >= 0 && cp.clen != int64(len(cp.first)) {
+		return "content-length-differs-from-body", fmt.Sprintf("Content-Length %d, body on the wire %d bytes", cp.clen, len(cp.first))
+	}
+	if cp.hasGetBody && !bytes.Equal(cp.first, cp.again) {
+		return "replayed-body-differs", fmt.Sprintf("the first attempt puts %d bytes on the wire, a replay through GetBody %d different bytes (same as the uncompressed input: %v)", len(cp.first), len(cp.again), bytes.Equal(cp.again, in))
+	}
+	return "", ""
+}
+
 func c16Run(e *c16Env, c c16Case) (string, string) {
 	in := c.Literal
 	if c.Kind != "literal" {
@@ -191,6 +245,13 @@ func c16Run(e *c16Env, c c16Case) (string, string) {
 		}
 		if r2, err2 := cl.Post(e.raw.URL, "application/octet-stream", body()); err2 == nil {
 			r2.Body.Close()
+		}
+		// what the transport may send AGAIN: net/http replays a request through GetBody (stale keep-alive connection,
+		// HTTP/2 GOAWAY, redirects) - a replay must put the same bytes on the wire as the first attempt
+		if c.Alg != "" && c.Alg != "none" {
+			if sig, what := c16Replay(c, in, body()); sig != "" {
+				return sig, desc + ": " + what
+			}
 		}
 		resp, err = cl.Post(e.ts.URL, "application/octet-stream", body())
 	}
